@@ -459,11 +459,12 @@ def in_defect_region(op, st, kind, depth):
         descs = op[1]
         mr = max([len(c03.shape_of(d[1])) for d in descs if d[0] in ("mask", "npmask")] + [0])
         if k == "index":
-            pass      # reads through boolean masks are right since the C08 fixes 839008a / b79ab80 / e06487a / 94eb4cb
+            # reads through 1-d masks are right since the C08 fixes 839008a / b79ab80 / e06487a / 94eb4cb; a mask of rank >= 2
+            # on a stack goes through torch.cat of the members' pieces (finding C16-d inside the lazy mask path)
+            f["mask_on_stack"] = bool(mr >= 2 and kind == "stack")
         else:
-            # a write promotes a shared entry to a stack of full depth first
-            plain = mr == 1 and len(descs) == 1 and st.pos.dim() == 1
-            f["mask_on_stack"] = bool(mr >= 1 and not plain)
+            # writes through a mask of rank >= 2 (it spans the stack dims of the nested stacks a write promotes to)
+            f["mask_on_stack"] = bool(mr >= 2)
     if k in ("setitem", "set_at", "setitem_same"):
         descs = op[1]
         f["write_index_none"] = any(d[0] == "non" for d in descs)
